@@ -3,6 +3,7 @@ import re
 from .. import facts, q
 from ..engine import Engine, Inconclusive, C, fmt, subterms, root_param_names
 from ..common import site
+from . import ops
 from .ops import strip_casts
 from .c11 import roots_of, obj_roots, _tgt
 
@@ -101,6 +102,10 @@ def check_interceptor(rep, db, f, inst):
         for k, (a, pn) in enumerate(zip(rest, names)):
             rs = obj_roots(p, a) | roots_of(a)
             v = p.state.mem.get(("fld", a, "data")) if isinstance(a, tuple) else None
+            uca = ops.unchecked_conversion(p, v) if v is not None else ops.unchecked_conversion(p, a)
+            if uca:
+                rep.violation(rule, site(f), "callback argument %d is converted by a plain C++ conversion %s in %s, outside the checked conversion routine" % (k + 1, fmt(uca[0])[:70], ", ".join(uca[1])), f["loc"], inst)
+                return
             src = p.state.mem.get(("copyof", a)) if isinstance(a, tuple) else None
             if v is None and src is not None:
                 v = p.state.mem.get(("fld", src, "data"))
@@ -127,6 +132,11 @@ def check_interceptor(rep, db, f, inst):
                 ok = any(q.mentions(c, lambda x: x == r) for c in conds)
             if not ok:
                 rep.violation(rule, site(f), "the value returned to the sandbox (%s) is not converted from the callback's result" % fmt(rv)[:120], f["loc"], inst)
+                return
+            uc = ops.unchecked_conversion(p, rv) if rv is not None else None
+            if uc:
+                rep.violation(rule, site(f), "the callback's result reaches the sandbox through a plain C++ conversion %s performed in %s, outside the checked conversion routine: a result that is not representable "
+                              "in the sandbox ABI is returned changed instead of aborting" % (fmt(uc[0])[:70], ", ".join(uc[1])), f["loc"], inst)
                 return
             x = strip_casts(rv) if rv is not None else None
             if isinstance(x, tuple) and x and x[0] in ("call", "ucall") and q.short(x[1] if x[0] == "call" else x[2]).startswith("impl_get_"):
